@@ -981,6 +981,17 @@ def _floor(c, a):
 
 
 _reg(['aten.floor.default', 'aten.floor_.default'], pointwise(_floor))
+def _round_half_even(c, a):
+    a = to_real(a)
+    k = z3.ToReal(z3.ToInt(a + z3.RealVal('1/2')))
+    tie = (a + z3.RealVal('1/2')) == k
+    odd = k / 2 != z3.ToReal(z3.ToInt(k / 2))
+    return z3.If(z3.And(tie, odd), k - 1, k)
+
+
+_reg(['aten.round.default', 'aten.round_.default'], pointwise(_round_half_even))
+_reg(['aten.remainder.Scalar', 'aten.remainder.Tensor'],
+     pointwise(lambda c, a, b: to_real(a) - to_real(b) * z3.ToReal(z3.ToInt(to_real(a) / to_real(b)))))
 _reg(['aten.ceil.default'], pointwise(lambda c, a: -z3.ToReal(z3.ToInt(-to_real(a)))))
 _reg(['aten.trunc.default'], pointwise(lambda c, a: z3.If(to_real(a) >= 0, z3.ToReal(z3.ToInt(to_real(a))),
                                                             -z3.ToReal(z3.ToInt(-to_real(a))))))
